@@ -420,6 +420,8 @@ class ArrayLiteral(Expression):
         for value in {v.type: v for v in values}.values():
             if isinstance(value.type, ArrayType):
                 raise TypeCheckError('Nested arrays are unsupported', value.span)
+            if value.type == DataType.EMPTY:
+                raise TypeCheckError('Array elements cannot be empty', value.span)
 
             # The preferred element type for an array literal, ie the
             # type used preferentially to match function signatures, is
